@@ -533,6 +533,72 @@ Proof.
   split; [exact ex_lu2_diag|exact ex_inverse].
 Qed.
 
+(* ---- the inverse as a whole: every column is the exact column of the inverse of a nearby matrix ----
+   (A + dA_j) x_j = e_j with |dA_j| <= (3 gam n + gam n^2) P^T |L^||U^| (Higham sec. 14.1): Thm 9.3 for the factorisation
+   (Proofs/RoundLUError.v) combined with the column sweeps above.  In terms of the COMPUTED |L^||U^|: the comparison with
+   |A| (growth factor) is not made, and since dA_j depends on the column nothing is claimed about X A - I. *)
+From OV Require Import Proofs.RoundInverseLU.
+
+Theorem inverse_backward_error : forall (u : R), (0 <= u < 1)%R ->
+  forall (fadd fsub fmul fdiv : R -> R -> R),
+  (forall x y : R, exists d : R, (Rabs d <= u)%R /\ fsub x y = ((x - y) * (1 + d))%R) ->
+  (forall x y : R, exists d : R, (Rabs d <= u)%R /\ fmul x y = (x * y * (1 + d))%R) ->
+  (forall x y : R, y <> 0%R -> exists d : R, (Rabs d <= u)%R /\ fdiv x y = (x / y * (1 + d))%R) ->
+  forall (m lu perm inv : Model.Matrix.matrix (ARm fadd fsub fmul fdiv)) (piv : nat),
+  Proofs.Matrix.wf m -> (INR (Model.Matrix.rows m) * u < 1)%R ->
+  Model.Solve.lu_decomp m = Base.Panic.Ok (lu, piv, perm) ->
+  (forall k, Peano.lt k (Model.Matrix.rows m) -> rentry fadd fsub fmul fdiv lu k k <> 0%R) ->
+  Model.Solve.inverse m = Base.Panic.Ok inv ->
+  Proofs.Matrix.wf inv /\ Model.Matrix.rows inv = Model.Matrix.rows m /\ Model.Matrix.cols inv = Model.Matrix.rows m /\
+  exists tau : nat -> nat,
+    (forall r, Peano.lt r (Model.Matrix.rows m) -> Peano.lt (tau r) (Model.Matrix.rows m)) /\
+    (forall r r', Peano.lt r (Model.Matrix.rows m) -> Peano.lt r' (Model.Matrix.rows m) -> tau r = tau r' -> r = r') /\
+    forall j, Peano.lt j (Model.Matrix.rows m) ->
+      exists dA : nat -> nat -> R,
+        (forall i c, Peano.lt i (Model.Matrix.rows m) -> Peano.lt c (Model.Matrix.rows m) ->
+           (Rabs (dA i c) <= (3 * gam u (Model.Matrix.rows m) + gam u (Model.Matrix.rows m) * gam u (Model.Matrix.rows m))
+                             * Rsum (Model.Matrix.rows m)
+                                 (fun k => Rabs (tril1 fadd fsub fmul fdiv lu i k) * Rabs (triu fadd fsub fmul fdiv lu k c)))%R) /\
+        forall i, Peano.lt i (Model.Matrix.rows m) ->
+          Rsum (Model.Matrix.rows m)
+            (fun c => ((rentry fadd fsub fmul fdiv m (tau i) c + dA i c) * rentry fadd fsub fmul fdiv inv c j)%R)
+          = if Nat.eqb j (tau i) then 1%R else 0%R.
+Proof. intros u Hu fadd fsub fmul fdiv Hs Hm Hd m lu perm inv piv. exact (inverse_backward_error_lemma u Hu fadd fsub fmul fdiv Hs Hm Hd m lu perm inv piv). Qed.
+Check inverse_backward_error : forall (u : R), (0 <= u < 1)%R ->
+  forall (fadd fsub fmul fdiv : R -> R -> R),
+  (forall x y : R, exists d : R, (Rabs d <= u)%R /\ fsub x y = ((x - y) * (1 + d))%R) ->
+  (forall x y : R, exists d : R, (Rabs d <= u)%R /\ fmul x y = (x * y * (1 + d))%R) ->
+  (forall x y : R, y <> 0%R -> exists d : R, (Rabs d <= u)%R /\ fdiv x y = (x / y * (1 + d))%R) ->
+  forall (m lu perm inv : Model.Matrix.matrix (ARm fadd fsub fmul fdiv)) (piv : nat),
+  Proofs.Matrix.wf m -> (INR (Model.Matrix.rows m) * u < 1)%R ->
+  Model.Solve.lu_decomp m = Base.Panic.Ok (lu, piv, perm) ->
+  (forall k, Peano.lt k (Model.Matrix.rows m) -> rentry fadd fsub fmul fdiv lu k k <> 0%R) ->
+  Model.Solve.inverse m = Base.Panic.Ok inv ->
+  Proofs.Matrix.wf inv /\ Model.Matrix.rows inv = Model.Matrix.rows m /\ Model.Matrix.cols inv = Model.Matrix.rows m /\
+  exists tau : nat -> nat,
+    (forall r, Peano.lt r (Model.Matrix.rows m) -> Peano.lt (tau r) (Model.Matrix.rows m)) /\
+    (forall r r', Peano.lt r (Model.Matrix.rows m) -> Peano.lt r' (Model.Matrix.rows m) -> tau r = tau r' -> r = r') /\
+    forall j, Peano.lt j (Model.Matrix.rows m) ->
+      exists dA : nat -> nat -> R,
+        (forall i c, Peano.lt i (Model.Matrix.rows m) -> Peano.lt c (Model.Matrix.rows m) ->
+           (Rabs (dA i c) <= (3 * gam u (Model.Matrix.rows m) + gam u (Model.Matrix.rows m) * gam u (Model.Matrix.rows m))
+                             * Rsum (Model.Matrix.rows m)
+                                 (fun k => Rabs (tril1 fadd fsub fmul fdiv lu i k) * Rabs (triu fadd fsub fmul fdiv lu k c)))%R) /\
+        forall i, Peano.lt i (Model.Matrix.rows m) ->
+          Rsum (Model.Matrix.rows m)
+            (fun c => ((rentry fadd fsub fmul fdiv m (tau i) c + dA i c) * rentry fadd fsub fmul fdiv inv c j)%R)
+          = if Nat.eqb j (tau i) then 1%R else 0%R.
+Print Assumptions inverse_backward_error.
+Example inverse_backward_error_nonvacuous :   (* same instance as inverse_columns_backward_error_nonvacuous *)
+  (0 <= ux < 1)%R /\ Proofs.Matrix.wf ex_m2 /\ (INR (Model.Matrix.rows ex_m2) * ux < 1)%R /\
+  Model.Solve.lu_decomp ex_m2 = Base.Panic.Ok (ex_lu2, 0%nat, ex_id2) /\
+  (forall k, Peano.lt k (Model.Matrix.rows ex_m2) -> rentry xadd xsub xmul xdiv ex_lu2 k k <> 0%R) /\
+  exists inv, Model.Solve.inverse ex_m2 = Base.Panic.Ok inv.
+Proof.
+  split; [exact ux_range|]. split; [reflexivity|]. split; [exact ex_size2|]. split; [exact ex_lu_decomp|].
+  split; [exact ex_lu2_diag|exact ex_inverse].
+Qed.
+
 (* ---------- Props/pending/C03_round.v.txt ---------- *)
 (* ======================================================================================================
    C03 (dense matrix algebra), rounding half -- package round.  Append to Props/C03.v.
